@@ -22,7 +22,7 @@ META = {
                   "TimeoutException raised in the body reaches the region's handler (no inner handler swallows it), E2 the handler reads only names assigned before the try, "
                   "E3 parallel lists extended in the body are re-aligned by the handler. They are reported as obligations with back end pyvc.excedge; a failing one without a "
                   "failing injection is reported with no-failing-input-found.",
-    "technique": "exception-edge obligations on the AST (structural) + fault injection (sys.settrace) into the real code on a scratch copy, one forked generation run per fault point, C03 library predicate as oracle",
+    "technique": "exception-edge obligations on the AST (E1-E6, structural), timeout handlers that re-align parallel lists verified from their AST (AST->VC->SMT) + fault injection (sys.settrace) into the real code on a scratch copy, one forked generation run per fault point, C03 library predicate as oracle",
 }
 CHECKER = "./bin/check C15 (harness/rt_c15.py: forked generation runs with injected TimeoutException, oracle harness/rt_gen.py::library_predicate)"
 
